@@ -76,14 +76,22 @@ def segMatches (pat name : String) : Bool := wildcard kwBytes (bytesOf name) (pa
 def children (st : St) (scope : Path) : List Path :=
   st.objs.filter fun p => p.length == scope.length + 1 && lc (p.take scope.length) == lc scope
 
-def descendants (st : St) (scope : Path) : List Path :=
+def isBoardKw (s : String) : Bool := s == "layers" || s == "scenarios" || s == "steps"
+
+/-- everything below `scope`, nested boards included (`_tripleGlob`) -/
+def descendantsAll (st : St) (scope : Path) : List Path :=
   st.objs.filter fun p => p.length > scope.length && lc (p.take scope.length) == lc scope
+
+/-- everything below `scope` on the same board (`_doubleGlob` skips `layers` / `scenarios` / `steps`) -/
+def descendants (st : St) (scope : Path) : List Path :=
+  (descendantsAll st scope).filter fun p => !((p.drop scope.length).any isBoardKw)
 
 /-- objects selected by a (possibly globbed) object path, starting at `scope` -/
 def resolve (st : St) : Path â†’ Key â†’ List Path
   | cur, [] => [cur]
   | cur, s :: rest =>
-    if s.q == 0 && s.s == "**" then (descendants st cur).flatMap fun p => resolve st p rest
+    if s.q == 0 && s.s == "***" then (descendantsAll st cur).flatMap fun p => resolve st p rest
+    else if s.q == 0 && s.s == "**" then (descendants st cur).flatMap fun p => resolve st p rest
     else if segHasGlob s then
       ((children st cur).filter fun p => segMatches s.s (p.getLast?.getD "")).flatMap fun p => resolve st p rest
     else
@@ -217,6 +225,26 @@ partial def procStmt (P : Path) (gs : List GlobDecl) (s : Stmt) : M (List Stmt Ã
       let out â† applyGlob P gs' g []
       let more â† runLazy P gs'
       return (out ++ more, gs')
+    -- a block of layers: each layer is a fresh board that inherits only the board-wide (***) globs
+    match key, val with
+    | [kw], .map boards =>
+      if kw.q == 0 && kw.s == "layers" then
+        let mut out : Body := []
+        for b in boards do
+          match b with
+          | .field a' [n] p' (.map body) =>
+            let tri := gs.filter fun g => match g.stmt with
+              | .field _ (k0 :: _) _ _ => k0.q == 0 && k0.s == "***"
+              | _ => false
+            let body' â† procBody (P ++ ["layers", n.s]) tri body
+            out := out ++ [.field a' [n] p' (.map body')]
+          | other => out := out ++ [other]
+        return ([.field amp key prim (.map out)], gs)
+      else if kw.q == 0 && (kw.s == "scenarios" || kw.s == "steps") then
+        fail "scenarios / steps are outside the expand fragment"
+        return ([s], gs)
+      else pure ()
+    | _, _ => pure ()
     let (objPart, attrPart) := splitKey key
     let pre â† createObjs P gs objPart
     match val with
